@@ -243,6 +243,8 @@ def run(ctx):
     # Executor) and through py_gql.graphql on an asyncio loop with resolvers completing OUT OF DOCUMENT ORDER
     from corr import C04_runtimes
     C04_runtimes.run(ctx)
+    from corr import C04_hunt1
+    C04_hunt1.run(ctx)           # named probes (no randomness): exponential fragment expansion, @skip before @include
     leading_node_class(ctx, None, lean_cases if use_lean else None)       # the fixed-schema part of the class, also first
     for si in range(n_schemas):
         if ctx.time_left() < 15:
@@ -570,6 +572,9 @@ def replay(ctx, data, quiet=False):
     if inp.get("part") == "runtimes":
         from corr import C04_runtimes
         return C04_runtimes.replay(ctx, inp)
+    if inp.get("part") == "hunt1":
+        from corr import C04_hunt1
+        return C04_hunt1.replay(ctx, inp)
     if inp.get("stream") == "disable-introspection":
         class _C3:
             def __init__(self):
